@@ -116,7 +116,13 @@ class Sel:
         if self.conds is None or ctx.cond_node is None:
             return None
         text = F.render(ctx.cond_node)
-        if self.conds(text):
+        try:
+            r = self.conds(text, F, ctx.cond_node)
+        except TypeError:
+            r = self.conds(text)
+        if isinstance(r, str):
+            return ("if", r, bool(ctx.cond_val), bid)
+        if r:
             return ("if", text, bool(ctx.cond_val), bid)
         return None
 
@@ -204,3 +210,21 @@ def show(seq):
 def strip_ids(seq):
     """Token sequence without node ids (stable signature)."""
     return tuple(tuple(x for x in t[:-1]) if isinstance(t[-1], int) and t[0] != "if" else t for t in seq)
+
+
+def atomic_cmp(F, node, field, consts=None):
+    """Structural label for a condition comparing an atomic load of `field`
+    ('Rec::name') with a constant: returns (order, op, value) or None.  Used so
+    that rules do not depend on variable names."""
+    nd = F.nodes[F.strip(node)]
+    if nd.get("k") != "bin" or nd["op"] not in ("==", "!="):
+        return None
+    for a, b in ((nd["lh"], nd["rh"]), (nd["rh"], nd["lh"])):
+        an = F.nodes[F.strip(a)]
+        bn = F.nodes[F.strip(b)]
+        if an.get("k") == "call" and (an.get("fn") or "").startswith("ABTD_atomic_") and "_load_" in an["fn"] and an["a"]:
+            fo = F.field_of(an["a"][0])
+            if fo and "%s::%s" % fo == field and "cv" in bn:
+                order = "acquire" if "acquire" in an["fn"] else "relaxed"
+                return (order, nd["op"], bn["cv"])
+    return None
